@@ -72,6 +72,7 @@ type ctl struct {
 	recovered bool // a deferred call executed recover() during unwinding
 	running   bool // frame is in the middle of RunDefers (normal exit)
 	deferred  bool // this frame is a deferred call of the frame below
+	recovHit  bool // the last recover() executed in this frame returned non-nil
 }
 
 type tnode struct {
@@ -159,6 +160,9 @@ func (s *State) key() string {
 		}
 		if c.deferred {
 			b.WriteByte('d')
+		}
+		if c.recovHit {
+			b.WriteByte('h')
 		}
 		b.WriteByte('|')
 		// the defer list identity matters (which deferred calls are pending)
@@ -462,10 +466,11 @@ func (e *Engine) canon(fc *FrameCtx, v ssa.Value, depth int) (string, bool) {
 				f := fieldName(fa.X.Type(), fa.Field)
 				return s, st && e.Immutable[typeName(fa.X.Type())+"."+f]
 			}
-			if ia, ok := v.X.(*ssa.IndexAddr); ok && privateSlice(ia.X) {
-				// element of a slice made in this function and never stored into
-				// element-wise: its elements do not change while it is iterated
-				return s, st
+			if _, ok := v.X.(*ssa.IndexAddr); ok {
+				// a value loaded from a slice/array element is identified by the
+				// register it was loaded into (immutable until redefined; predicates on
+				// it are dropped when the register is redefined by a loop)
+				return "v:" + e.valID(fc, v), true
 			}
 			return s, false
 		}
@@ -772,6 +777,9 @@ func (e *Engine) explore(st *State) {
 				stable = false
 			}
 			forced, fval := e.foldCond(fc, in.Cond)
+			if !forced {
+				forced, fval = e.foldRecover(st, in.Cond)
+			}
 			for i, succ := range t.blk.Succs {
 				taken := i == 0
 				if forced && taken != fval {
@@ -899,6 +907,24 @@ func (e *Engine) foldCond(fc *FrameCtx, cond ssa.Value) (bool, bool) {
 	return false, false
 }
 
+// foldRecover decides `recover() != nil`: it is true exactly when the deferred frame
+// runs while the frame below it is being unwound by a panic.
+func (e *Engine) foldRecover(st *State, cond ssa.Value) (bool, bool) {
+	x, nonNilOnTrue, ok := nilTest(cond)
+	if !ok {
+		return false, false
+	}
+	call, ok := stripConv(x).(*ssa.Call)
+	if !ok {
+		return false, false
+	}
+	if b, ok := call.Common().Value.(*ssa.Builtin); !ok || b.Name() != "recover" {
+		return false, false
+	}
+	panicking := st.top().recovHit
+	return true, panicking == nonNilOnTrue
+}
+
 func isBasic(t types.Type) bool { _, ok := t.Underlying().(*types.Basic); return ok }
 
 func (e *Engine) neverNil(fc *FrameCtx, v ssa.Value, depth int) bool {
@@ -997,14 +1023,17 @@ func (e *Engine) runNextDefer(st *State) bool {
 	return true
 }
 
-// noteRecover is called when recover() executes: if it runs in a deferred frame while
-// the frame below is unwinding, the panic is absorbed there.
+// noteRecover is called when recover() executes: if it runs directly in a deferred
+// frame while the frame below is unwinding and no earlier deferred call has already
+// recovered, it returns non-nil and the panic is absorbed there.
 func (e *Engine) noteRecover(st *State) {
+	top := st.top()
+	top.recovHit = false
 	if len(st.stack) >= 2 {
-		top := st.top()
 		below := &st.stack[len(st.stack)-2]
-		if top.deferred && below.unwinding {
+		if top.deferred && below.unwinding && !below.recovered {
 			below.recovered = true
+			top.recovHit = true
 		}
 	}
 }
